@@ -8,7 +8,7 @@ PROP = dict(
     assumptions=[],
     jobs=dict(
         quick=[
-            job("htlcswitch", "^TestVerifC08Atomic$", [_T], 6, shards=8, timeout=900),
+            job("htlcswitch", "^TestVerifC08Atomic$", [_T], 12, shards=8, timeout=900),
         ],
         thorough=[
             job("htlcswitch", "^TestVerifC08Atomic$", [_T], 20, shards=12, timeout=2400, race=True),
